@@ -259,6 +259,210 @@ fn keep_cfg(ops: &[String]) -> usize {
 }
 
 
+
+// ---------------------------------------------------------------------------------------------
+// E2 timing: dump + flush every tick, generous budget, tick lengths around resend_time
+// ---------------------------------------------------------------------------------------------
+fn script_timing(rng: &mut Rng, tier: Tier, ex: &mut dyn FnMut(&str) -> String) {
+    let resend = rng.pick(&[50_000u64, 100_000, 300_000]);
+    let kind = rng.pick(&["RO", "RU"]);
+    let ch = vec![Chan { id: 1, kind, max_mem: 5 * 1024 * 1024, resend_us: resend }, Chan { id: 0, kind: "U", max_mem: 100_000, resend_us: 0 }];
+    ex(&cfg_line(10_000_000, &ch, &ch));
+    ex("cli 0");
+    ex("add 100");
+    ex("setc 0");
+    let ticks = if tier == Tier::Quick { rng.range(6, 16) } else { rng.range(10, 40) };
+    let mode = rng.below(4);
+    let mut net = Net::new();
+    let loss = rng.pick(&[0u64, 30, 60]);
+    for tick in 0..ticks {
+        if tick < ticks / 2 || rng.chance(1, 4) {
+            for _ in 0..rng.below(3) {
+                let m = rand_msg(rng, 6000);
+                let who = rng.pick(&["c0", "s100"]);
+                ex(&format!("send {} 1 {}", who, hex(&m)));
+            }
+        }
+        let dt = match mode {
+            0 => resend,                                  // exactly resend_time
+            1 => rng.pick(&[resend - 1, resend, resend + 1]),
+            2 => rng.pick(&[resend / 2, resend / 3, resend]), // shorter ticks
+            _ => rng.range(1, 2 * resend),                // irregular
+        };
+        ex(&format!("upd c0 {}", dt));
+        ex(&format!("upd srv {}", dt));
+        ex("dump c0");
+        net.flush(rng, ex, "c0", "s100", tick, loss, 20, 30);
+        ex("dump s100");
+        net.flush(rng, ex, "s100", "c0", tick, loss, 20, 30);
+        net.deliver_due(rng, ex, tick, true);
+        if rng.chance(1, 2) {
+            drain(ex, "c0", 1, 5);
+            drain(ex, "s100", 1, 5);
+        }
+    }
+}
+
+/// C15 promptness + never-after-ack on `dump X` immediately followed by `flush X` (budget generous):
+/// every unacknowledged entry/slice that is due at the flush time must be in the flush, nothing that is
+/// not in the unacked set may be.
+fn oracle_c15_prompt(ops: &[String], outs: &[String]) -> Option<OracleFail> {
+    let mut cfg = Cfg::default();
+    for i in 0..ops.len() {
+        if let Some(c) = parse_cfg(&ops[i]) {
+            cfg = c;
+        }
+        if i == 0 || !ops[i].starts_with("flush ") {
+            continue;
+        }
+        let who = &ops[i][6..];
+        if ops[i - 1] != format!("dump {}", who) || !outs[i - 1].starts_with("seq=") {
+            continue;
+        }
+        if cfg.budget < 1_000_000 {
+            continue; // "budget allows" is only trivially true for generous budgets
+        }
+        let dump = &outs[i - 1];
+        let now: u64 = head_field(dump, "now").and_then(|x| x.parse().ok()).unwrap_or(0);
+        // what this flush carries
+        let mut carried: std::collections::HashSet<(u8, u64, i64)> = Default::default();
+        for p in flush_packets(&outs[i]) {
+            match decode(p) {
+                Some(WPacket::SmallReliable { channel_id, messages, .. }) => {
+                    for (id, _) in messages {
+                        carried.insert((channel_id, id, -1));
+                    }
+                }
+                Some(WPacket::ReliableSlice { channel_id, slice, .. }) => {
+                    carried.insert((channel_id, slice.message_id, slice.slice_index as i64));
+                }
+                _ => {}
+            }
+        }
+        if outs[i - 1].contains("disconnected") {
+            continue;
+        }
+        let mut known: std::collections::HashSet<(u8, u64)> = Default::default();
+        for (name, b) in dump_blocks(dump) {
+            if !name.starts_with("sr") {
+                continue;
+            }
+            let ch: u8 = name[2..].parse().unwrap_or(0);
+            let list = if who.starts_with('c') { &cfg.client } else { &cfg.server };
+            let resend_ns = list.iter().find(|c| c.0 == ch).map(|c| c.3 * 1000).unwrap_or(0);
+            let due = |last: &str| -> bool {
+                match last.parse::<u64>() {
+                    Err(_) => true, // "-" never sent
+                    Ok(t) => now.saturating_sub(t) >= resend_ns,
+                }
+            };
+            for e in field(&b, "un").unwrap_or("").split(';').filter(|x| !x.is_empty()) {
+                // id:S<len>@<last>   |   id:L<len>,<n>,<acked>,<next>,<bits>@<l0>,<l1>,…
+                let (id, rest) = match e.split_once(':') {
+                    Some(x) => x,
+                    None => continue,
+                };
+                let id: u64 = id.parse().unwrap_or(0);
+                known.insert((ch, id));
+                let (head, lasts) = match rest.split_once('@') {
+                    Some(x) => x,
+                    None => continue,
+                };
+                if head.starts_with('S') {
+                    if due(lasts) && !carried.contains(&(ch, id, -1)) {
+                        return fail(i, "due-not-sent", format!("{} channel {} message {} is unacknowledged and due (last sent {}, now {}) but this flush does not carry it", who, ch, id, lasts, now));
+                    }
+                    if !due(lasts) && carried.contains(&(ch, id, -1)) {
+                        return fail(i, "retransmitted-early", format!("{} channel {} message {} retransmitted before resend_time (last {}, now {})", who, ch, id, lasts, now));
+                    }
+                } else {
+                    let f: Vec<&str> = head[1..].split(',').collect();
+                    let bits = f.get(4).copied().unwrap_or("");
+                    for (k, (bit, last)) in bits.chars().zip(lasts.split(',')).enumerate() {
+                        let has = carried.contains(&(ch, id, k as i64));
+                        if bit == '1' {
+                            if has {
+                                return fail(i, "sent-after-ack", format!("{} channel {} message {} slice {} was acknowledged but is transmitted again", who, ch, id, k));
+                            }
+                        } else if due(last) && !has {
+                            return fail(i, "due-not-sent", format!("{} channel {} message {} slice {} is unacknowledged and due (last {}, now {}) but not in this flush", who, ch, id, k, last, now));
+                        } else if !due(last) && has {
+                            return fail(i, "retransmitted-early", format!("{} channel {} message {} slice {} retransmitted before resend_time", who, ch, id, k));
+                        }
+                    }
+                }
+            }
+        }
+        for (ch, id, sl) in carried.iter() {
+            if !known.contains(&(*ch, *id)) {
+                return fail(i, "sent-after-ack", format!("{} channel {} message {} (slice {}) is not in the unacknowledged set but is transmitted", who, ch, id, sl));
+            }
+        }
+    }
+    None
+}
+
+// ---------------------------------------------------------------------------------------------
+// E2 long: tens of thousands of tiny messages (ids and sequences cross the varint widths),
+// hundreds per tick (packing), lossy, then heal
+// ---------------------------------------------------------------------------------------------
+fn script_long(rng: &mut Rng, _tier: Tier, ex: &mut dyn FnMut(&str) -> String) {
+    let kind = rng.pick(&["RO", "RU"]);
+    let ch = vec![Chan { id: 2, kind, max_mem: 5 * 1024 * 1024, resend_us: 100_000 }, Chan { id: 0, kind: "U", max_mem: 5 * 1024 * 1024, resend_us: 0 }];
+    ex(&cfg_line(60_000, &ch, &ch));
+    ex("cli 0");
+    ex("add 100");
+    ex("setc 0");
+    let total = rng.pick(&[17_000u64, 17_500]);
+    let per_tick = rng.pick(&[500u64, 700, 900]);
+    let mut sent = 0u64;
+    let mut net = Net::new();
+    let mut tick = 0u64;
+    let loss = rng.pick(&[0u64, 10, 30]);
+    while sent < total {
+        for _ in 0..per_tick {
+            let n = match rng.below(40) {
+                0 => rng.pick(&[1185usize, 1189, 1190, 1195, 1199, 1200]),
+                1 => 100,
+                _ => rng.below(3) as usize,
+            };
+            let m = rng.payload(n);
+            ex(&format!("send c0 2 {}", hex(&m)));
+            if rng.chance(1, 3) {
+                ex(&format!("send c0 0 {}", hex(&m)));
+            }
+            sent += 1;
+        }
+        ex("upd c0 101000");
+        ex("upd srv 101000");
+        net.flush(rng, ex, "c0", "s100", tick, loss, 5, 10);
+        net.flush(rng, ex, "s100", "c0", tick, loss, 5, 10);
+        net.deliver_due(rng, ex, tick, true);
+        drain(ex, "s100", 2, 100_000);
+        drain(ex, "s100", 0, 100_000);
+        tick += 1;
+    }
+    net.deliver_due(rng, ex, tick + 10, false);
+    for _ in 0..60 {
+        tick += 1;
+        ex("upd c0 101000");
+        ex("upd srv 101000");
+        net.flush(rng, ex, "c0", "s100", tick + 20, 0, 0, 0);
+        net.flush(rng, ex, "s100", "c0", tick + 20, 0, 0, 0);
+        net.deliver_due(rng, ex, tick + 20, false);
+        drain(ex, "s100", 2, 100_000);
+        drain(ex, "s100", 0, 100_000);
+    }
+    ex("stat c0");
+    ex("stat s100");
+    ex("note healed");
+    ex("upd c0 3100000");
+    ex("upd srv 3100000");
+    ex("dump c0");
+    ex("dump s100");
+    ex("note quiescent");
+}
+
 // ---------------------------------------------------------------------------------------------
 // E3: hostile packets injected into live sessions; second healthy connection on the same server
 // ---------------------------------------------------------------------------------------------
@@ -1069,6 +1273,26 @@ pub fn profiles() -> Vec<Profile> {
         new_world,
         script: script_multi,
         nontrivial: |t| t.ops.iter().any(|o| o.starts_with("bcast")) && t.outs.iter().any(|o| o.starts_with("msg ")),
+        keep: keep_cfg,
+        fixed: None,
+    },
+    Profile {
+        name: "rn-timing",
+        props: &["C15", "C08", "C01", "C02"],
+        cases: |t| if t == Tier::Quick { 200 } else { 3000 },
+        new_world,
+        script: script_timing,
+        nontrivial: |t| t.outs.iter().filter(|o| o.starts_with("pkts ") && !o.starts_with("pkts 0")).count() > 3,
+        keep: keep_cfg,
+        fixed: None,
+    },
+    Profile {
+        name: "rn-long",
+        props: &["C13", "C16", "C01", "C02", "C09", "C08"],
+        cases: |t| if t == Tier::Quick { 2 } else { 12 },
+        new_world,
+        script: script_long,
+        nontrivial: |t| t.ops.len() > 10_000,
         keep: keep_cfg,
         fixed: None,
     },
@@ -1901,17 +2125,18 @@ fn oracle_c08(ops: &[String], outs: &[String]) -> Option<OracleFail> {
 
 pub fn oracles() -> Vec<Oracle> {
     vec![
-        Oracle { prop: "C01", name: "ordered-prefix", engines: &["rn-pair", "rn-multi"], check: oracle_c01 },
-        Oracle { prop: "C02", name: "unordered-once", engines: &["rn-pair", "rn-multi", "rn-regress"], check: oracle_c02 },
+        Oracle { prop: "C01", name: "ordered-prefix", engines: &["rn-pair", "rn-multi", "rn-timing", "rn-long"], check: oracle_c01 },
+        Oracle { prop: "C02", name: "unordered-once", engines: &["rn-pair", "rn-multi", "rn-timing", "rn-long", "rn-regress"], check: oracle_c02 },
         Oracle { prop: "C03", name: "integrity", engines: &["rn-pair"], check: oracle_c03 },
         Oracle { prop: "C16", name: "roundtrip", engines: &["rn-wire"], check: oracle_c16 },
         Oracle { prop: "C06", name: "no-panic-bounded", engines: &["rn-"], check: oracle_c06 },
-        Oracle { prop: "C09", name: "accounting", engines: &["rn-pair", "rn-hostile", "rn-regress"], check: oracle_c09 },
+        Oracle { prop: "C09", name: "accounting", engines: &["rn-pair", "rn-hostile", "rn-regress", "rn-long", "rn-timing"], check: oracle_c09 },
         Oracle { prop: "C12", name: "finality-events", engines: &["rn-api", "rn-regress", "rn-hostile"], check: oracle_c12 },
-        Oracle { prop: "C13", name: "packet-size", engines: &["rn-pair", "rn-regress", "rn-multi", "rn-hostile"], check: oracle_c13 },
+        Oracle { prop: "C13", name: "packet-size", engines: &["rn-pair", "rn-regress", "rn-multi", "rn-hostile", "rn-long", "rn-timing"], check: oracle_c13 },
         Oracle { prop: "C14", name: "budget", engines: &["rn-pair", "rn-multi"], check: oracle_c14 },
-        Oracle { prop: "C15", name: "resend-timing", engines: &["rn-pair"], check: oracle_c15 },
-        Oracle { prop: "C08", name: "release-after-delivery", engines: &["rn-pair"], check: oracle_c08 },
+        Oracle { prop: "C15", name: "resend-timing", engines: &["rn-pair", "rn-timing"], check: oracle_c15 },
+        Oracle { prop: "C15", name: "prompt-and-final", engines: &["rn-timing"], check: oracle_c15_prompt },
+        Oracle { prop: "C08", name: "release-after-delivery", engines: &["rn-pair", "rn-timing", "rn-long"], check: oracle_c08 },
         Oracle { prop: "C11", name: "isolation-ordered", engines: &["rn-multi"], check: oracle_c01 },
         Oracle { prop: "C11", name: "isolation-unordered", engines: &["rn-multi"], check: oracle_c02 },
     ]
